@@ -442,8 +442,91 @@ def oracle(ctx: Ctx) -> OracleResult:
                              (out.evaluations, len(out.failures)))
             break
     out.nontrivial = len(distinct)
+    oracle_sock(ctx, out, hist)
     out.histogram = dict(hist)
     return out
+
+
+def oracle_sock(ctx: Ctx, out: OracleResult, hist: Hist) -> None:
+    """Connections made on an already connected socket (no host name given): the known_hosts entry that counts is
+    the one for the peer's address AND port.  Real loopback TCP; the server records any credential it is sent."""
+    import asyncio
+    import socket
+    import asyncssh
+    rng = ctx.subrng('oracle-sock')
+
+    class Srv(asyncssh.SSHServer):
+        got: List[str] = []
+
+        def begin_auth(self, username: str) -> bool:
+            return True
+
+        def password_auth_supported(self) -> bool:
+            return True
+
+        def validate_password(self, username: str, password: str) -> bool:
+            Srv.got.append(password)
+            return True
+
+    async def one(kind: str) -> Tuple[str, bool, str]:
+        Srv.got = []
+        k_default = asyncssh.generate_private_key('ssh-ed25519')
+        k_port = asyncssh.generate_private_key('ssh-ed25519')
+        pub = lambda k: k.export_public_key('openssh').decode().strip()        # noqa: E731
+        acceptor = await asyncssh.listen('127.0.0.1', 0, server_factory=Srv,
+                                         server_host_keys=[k_port if kind == 'listed-for-port' else k_default])
+        port = acceptor.get_port()
+        if kind == 'other-key-for-port':
+            kh = f'127.0.0.1 {pub(k_default)}\n[127.0.0.1]:{port} {pub(k_port)}\n'
+            expect_accept = False
+        elif kind == 'revoked-for-port':
+            kh = f'127.0.0.1 {pub(k_default)}\n@revoked [127.0.0.1]:{port} {pub(k_default)}\n'
+            expect_accept = False
+        elif kind == 'only-portless-entry':
+            # no entry names the port: the port-less entry applies (asyncssh's documented fallback, C17)
+            kh = f'127.0.0.1 {pub(k_default)}\n'
+            expect_accept = True
+        else:                                       # listed-for-port
+            kh = f'127.0.0.1 {pub(k_default)}\n[127.0.0.1]:{port} {pub(k_port)}\n'
+            expect_accept = True
+        sock = socket.create_connection(('127.0.0.1', port))
+        sock.setblocking(False)
+        outcome = 'accepted'
+        try:
+            conn = await asyncio.wait_for(asyncssh.connect(sock=sock, known_hosts=kh.encode(), username='u',
+                                                           password='secret-%d' % rng.randrange(1000),
+                                                           client_keys=None), 20)
+            conn.abort()
+        except Exception as e:
+            outcome = type(e).__name__
+        acceptor.close()
+        await asyncio.sleep(0.05)
+        return outcome, expect_accept, kh
+
+    async def go() -> List[Tuple[str, str, bool, str, List[str]]]:
+        rs = []
+        for kind in ['other-key-for-port', 'revoked-for-port', 'only-portless-entry', 'listed-for-port'] * ctx.n(1, 3):
+            try:
+                o, e, kh = await one(kind)
+            except OSError as exc:                   # no loopback networking here: nothing to judge
+                out.notes.append(f'sock scenario skipped: {exc}')
+                return rs
+            rs.append((kind, o, e, kh, list(Srv.got)))
+        return rs
+    for kind, outcome, expect, kh, got in pair.run(go(), timeout=300):
+        out.evaluations += 1
+        hist.hit(f'sock:{kind}:{outcome}')
+        key = {'kind': 'sock', 'scenario': kind, 'known_hosts': kh}
+        if not expect and (outcome == 'accepted' or got):
+            out.failures.append(Failure(
+                f'untrusted-host-key-accepted:sock-connection:{kind}',
+                f'connect(sock=...) to 127.0.0.1 on a non-default port with known_hosts {kh!r}: the server\'s key is '
+                f'not the one listed for [127.0.0.1]:port, yet the connection was {outcome} and the server received '
+                f'{len(got)} password(s)', key))
+        if expect and outcome != 'accepted':
+            out.notes.append(f'sock: key listed for [addr]:port refused ({outcome})')
+            hist.hit('note:sock-trusted-server-refused')
+    out.nontrivial += 4
 
 
 def replay(ctx: Ctx, rep: Dict[str, Any]) -> List[Failure]:
